@@ -82,6 +82,12 @@ def session_case(case):
         res['w1'] = rd(paths['w1'])
         if not case.get('same'):
             d.cmd('new')            # a fresh InstMgr/STEPfile; otherwise the session file is loaded back into the very same objects
+        if case.get('prior_before_load'):
+            # the loading session has read another file before (with more header entities): loading replaces all of it
+            pp = os.path.join(D, 'prior.stp')
+            with open(pp, 'wb') as f:
+                f.write(case['prior_before_load'].encode('latin1'))
+            d.cmd('read ' + pp)
         res['readws1'] = drv.kv(d.cmd('readws ' + paths['w1'])[0])
         res['dump1'] = drv.parse_dump(d.cmd('dump'))
         d.cmd('writews ' + paths['w2'])
@@ -126,6 +132,16 @@ def judge(case, res):
     shape = 'n=%d' % len(st)
     if 'crash' in res:
         return [('crash/%s/%s' % tuple(res['crash']), 'crash %s in %s' % tuple(res['crash']))]
+    if case.get('dangling'):
+        o2 = []
+        t1 = [(iid, s, t) for iid, s, en, t in res.get('dump1', [])]
+        t2 = [(iid, s, t) for iid, s, en, t in res.get('dump2', [])]
+        if t1 != t2:
+            bad = next((a for a, b in zip(t1, t2) if a != b), t1[-1] if len(t1) > len(t2) else (t2[-1] if t2 else None))
+            o2.append(('unstable-after-deleting-a-referenced-instance/population', 'the second load differs from the first: %r' % (bad,)))
+        if res.get('w2') is not None and res.get('w3') is not None and p21ref.mask_timestamp(res['w2']) != p21ref.mask_timestamp(res['w3']):
+            o2.append(('unstable-after-deleting-a-referenced-instance/file', 'the third save differs from the second'))
+        return o2
     mk = lambda: ','.join('%s%s' % (st[i], 'p' if part[i] else '') for i in sorted(st))
     fo = '' if not case.get('fail_before_save') else '/after-failed-%s' % case['fail_before_save']
     if case.get('fail_before_save') and res.get('dump_after_failed_op') is not None and res['dump_after_failed_op'] != res.get('dump_set'):
@@ -241,11 +257,17 @@ def gen(fam, tier):
                 for s1, s2 in sup:
                     states = [(1, s1), (2, s2)] + list(zip(ids, assign))
                     if any(s == 'D' and i in referenced for i, s in states):
+                        # a deleted instance that is still referred to: what the references become is not judged, only that the session is stable
+                        # from the first load on (load, save, load, save give the same)
+                        if n <= 2:
+                            yield {'family': fam.name, 'text': text, 'states': states, 'partial': partial, 'combo': [c[0] for c in combo], 'dangling': True}
                         continue
                     yield {'family': fam.name, 'text': text, 'states': states, 'partial': partial, 'combo': [c[0] for c in combo]}
                     if text_c is not None:
                         yield {'family': fam.name, 'text': text_c, 'states': states, 'partial': partial, 'combo': [c[0] for c in combo], 'comments': True}
                     if n == 1:
+                        prior = with_header(population(fam, (T[0], T[1]))[0].replace("'verif'", "'another file'"), ('language', 'context'))
+                        yield {'family': fam.name, 'text': text, 'states': states, 'partial': partial, 'combo': [c[0] for c in combo], 'prior_before_load': prior}
                         for op in ('append', 'appendws'):
                             yield {'family': fam.name, 'text': text, 'states': states, 'partial': partial, 'combo': [c[0] for c in combo], 'fail_before_save': op}
                         for hn in (('language',), ('context',), ('language', 'context'), ('population',), ('language', 'context', 'population')):
